@@ -1,19 +1,29 @@
-use vpharness::props::drive::{drive, TrajCase};
+use vpharness::props::c06::C06Case;
+use vpharness::props::oracles::*;
 use vpharness::oracle::linalg::*;
 fn main() {
     vpharness::engine::install_panic_hook();
     let path = std::env::args().nth(1).unwrap();
-    let case: TrajCase = vpharness::engine::load_case(std::path::Path::new(&path)).unwrap();
-    let mut visit = |p: &dyn vpharness::adapt::Prob<f32>, tag: &str| -> Result<(), vpharness::engine::Fail> {
-        let phi = p.phi().map(|m| Mat::from_na(&m));
-        match &phi { Ok(m) => println!("{tag}: params {:?} phi max {:e} finite {} coeffs present {}", p.params(), m.max_abs(), m.all_finite(), p.coeffs().is_some()), Err(e) => println!("{tag}: phi err {e}") }
-        if let Ok(m) = &phi { if m.all_finite() { let s = svd(m); println!("   oracle sigma {:?}", s.s); 
-           let na = nalgebra::DMatrix::<f32>::from_iterator(m.r, m.c, m.d.iter().map(|v| *v as f32)); let sn = na.svd(true,true); println!("   nalgebra sigma {:?} u finite {} v finite {}", sn.singular_values.as_slice(), sn.u.unwrap().iter().all(|v| v.is_finite()), sn.v_t.unwrap().iter().all(|v| v.is_finite()));
-           println!("  phi = {:?}", m.d);
-        } }
-        if let Some(c) = p.coeffs() { println!("   coeffs {:?}", c.as_slice()); }
-        Ok(())
-    };
-    let r = vpharness::engine::catch(|| drive::<f32>(&case.base, &case.updates, case.lm.as_ref(), &mut visit).map(|_| ()));
-    println!("result: {:?}", r.map(|x| x.map_err(|f| f.msg)));
+    let case: C06Case = vpharness::engine::load_case(std::path::Path::new(&path)).unwrap();
+    let base = &case.base;
+    let solver = case.lm.resolved::<f64>().solver::<f64>();
+    let p = base.build::<f64>().unwrap();
+    let fa = p.fit_stats(&solver);
+    println!("ok {} term {:?} alpha {:?}", fa.ok, fa.report.term, fa.alpha);
+    let c = Mat::from_na(&fa.problem.coeffs().unwrap());
+    let h = stats_h(fa.problem.as_ref(), &c, true).unwrap();
+    let sv = svd(&h);
+    println!("H sigma {:?}", sv.s);
+    if let Some(st) = &fa.stats { println!("cov {:?}", st.cov().as_slice()); println!("chi2 {:?}", st.chi2());
+      let hn = nalgebra::DMatrix::from_column_slice(h.r, h.c, &h.d);
+      let g = hn.transpose() * &hn;
+      println!("G = {:?}", g.as_slice());
+      let gi = g.clone().try_inverse().unwrap();
+      println!("nalgebra inverse*chi2 {:?}", (gi.clone() * st.chi2()).as_slice());
+      let lu = g.clone().lu(); let gi2 = lu.try_inverse().unwrap();
+      println!("nalgebra LU inverse*chi2 {:?}", (gi2 * st.chi2()).as_slice());
+      println!("G*Ginv - I = {:?}", (&g * &gi - nalgebra::DMatrix::identity(4,4)).as_slice());
+      let inv = inv_gram_from_svd(&sv); println!("oracle cov {:?}", inv.scale(st.chi2()).d); }
 }
+#[allow(dead_code)]
+fn unused() {}
